@@ -60,7 +60,7 @@ def claim(pid, kernels, level_text, note, category="proof"):
 _NOTE = ("Trusted: CBMC 6.11 and its SAT/SMT back ends; the cxx2c rewrite rules (surface syntax only, must-fire, residue-scanned); prelude struct models; region interfaces; "
          "CBMC's libc models; external callees left arbitrary. Everything outside the listed kernels is unverified (evidence.coverage.explanation).")
 
-claim("C01", "K01 K02 K04 K06", "Unbounded proof (all 2^64 operands, loop-free contracts) that the arithmetic leaves of value-flow equal the C abstract machine; says nothing about where values flow.", _NOTE)
+claim("C01", "K01 K02 K04 K06 K37 K39", "Unbounded proof (all 2^64 operands, loop-free contracts) that the arithmetic leaves of value-flow equal the C abstract machine; proof by induction over the expression tree (ghost execution values, recursive calls replaced by the contract) that getExpressionRange bounds every execution and that valueFlowRightShift's known 0 follows from it. Says nothing about where values flow (forward/reverse analysis, program memory and the other value-flow passes are not verified).", _NOTE)
 claim("C09", "K02", "Unbounded proof that Platform::set establishes the data model the property names for each built-in platform and that the range helpers equal the two's-complement ranges.", _NOTE)
 claim("C10", "K01 K02 K04 K06 K07", "Unbounded proof of safety/termination/prefix lemmas of the literal recognisers (loop contracts, any length) and of arithmetic wrap-around; language equality of recognisers is a bounded check (labelled, not counted as proof).", _NOTE)
 claim("C13", "all kernels", "Unbounded proof of absence of undefined behaviour (CBMC bounds, pointer, signed-overflow, division, shift checks on every obligation) and of termination where loop contracts carry a decreases clause, for the functions and regions under contract only (about 1% of lib/ plus the #if constant folding of simplecpp); bounded jobs are labelled and not counted.", _NOTE)
